@@ -117,6 +117,7 @@ def violations(e, root_is_predicate: bool = False, check_call_args: bool = True)
     walk(e, {})
     if root_is_predicate:
         need(mask(e) == ST.BOOL, f'predicate root «{e}» carries {e.data_type!r}')
-    for key, m in refs.items():
-        need(m != 0, f'occurrences of reference «{key}» share no possible type')
+    if root_is_predicate:  # the statement requires this of a predicate, not of a free-standing expression
+        for key, m in refs.items():
+            need(m != 0, f'occurrences of reference «{key}» share no possible type')
     return out
